@@ -14,7 +14,8 @@
 //                         index of every CCCD (observed by writing the descriptor), the value
 //                         attribute index of every characteristic (scan of the attribute table)
 //   sub <c> <p> <v>       write of the 16 bit value v to the p-th CCCD (declaration order) through the
-//                         access function of the real CCCD attribute, connection c          -> ok | rc=..
+//                         access function of the real CCCD attribute (servers X1, C3: by an ATT Write
+//                         Request through server::l2cap_input), connection c        -> ok | rc=.. | rsp=..
 //   mtu <c> <m>           connection_data::client_mtu( m )                           -> negotiated MTU
 //   set <cell> <hex>      server side change of a bound value                              -> ok
 //   nv <c> <cell> <n|i>   server.notify( value ) / indicate( value ), the notification callback
@@ -77,12 +78,37 @@ std::string join( const std::vector< std::string >& v, const char* sep )
 
 std::string num( unsigned long long v ) { return std::to_string( v ); }
 
+// identification of a UUID as a decimal number: the 16 bit value, or the full 128 bit value (the
+// library's uuid<>::as_16bit() of a 128 bit UUID is just a part of it and can collide with a 16 bit UUID)
+template < class U >
+std::string uuid_id()
+{
+    if ( !U::is_128bit )
+        return num( U::as_16bit() );
+    std::vector< std::uint8_t > v( U::bytes + 0, U::bytes + sizeof( U::bytes ) );   // little endian
+    std::string r;
+    for ( bool zero = false; !zero; )
+    {
+        unsigned rem = 0;
+        zero = true;
+        for ( std::size_t i = v.size(); i != 0; --i )
+        {
+            const unsigned cur = rem * 256 + v[ i - 1 ];
+            v[ i - 1 ] = cur / 10;
+            rem        = cur % 10;
+            zero       = zero && v[ i - 1 ] == 0;
+        }
+        r.insert( r.begin(), static_cast< char >( '0' + rem ) );
+    }
+    return r;
+}
+
 // the UUIDs of a higher_outgoing_priority< ... > option
 template < class P > struct prio_list;
 template < class ... Us >
 struct prio_list< bluetoe::higher_outgoing_priority< Us... > >
 {
-    static std::vector< std::string > get() { return std::vector< std::string >{ num( Us::as_16bit() )... }; }
+    static std::vector< std::string > get() { return std::vector< std::string >{ uuid_id< Us >()... }; }
 };
 
 template < class T > struct int_list;
@@ -99,7 +125,7 @@ struct bound< bluetoe::bind_characteristic_value< T, P > > { static const void* 
 
 struct char_info
 {
-    unsigned uuid; int cell; std::size_t size; bool readable, notify, indicate; std::size_t extra; bool cccd;
+    std::string uuid; int cell; std::size_t size; bool readable, notify, indicate; std::size_t extra; bool cccd;
     const void* ptr;
 };
 
@@ -116,7 +142,7 @@ struct walker
         using vt = typename C::value_type;
         using b  = bound< typename C::base_value_type >;
         char_info i;
-        i.uuid     = C::configured_uuid::as_16bit();
+        i.uuid     = uuid_id< typename C::configured_uuid >();
         i.ptr      = b::ptr();
         i.cell     = i.ptr ? g_cell_by_ptr.at( i.ptr ) : 900 + static_cast< int >( chars.size() );
         i.size     = b::size();
@@ -126,7 +152,7 @@ struct walker
         i.cccd     = C::number_of_client_configs != 0;
         i.extra    = C::number_of_attributes - 2 - C::number_of_client_configs;
         chars.push_back( i );
-        out.push_back( num( i.uuid ) + "/" + num( i.cell ) + "/" + num( i.size ) + "/" + num( i.readable ) + "/" + num( i.notify ) + "/"
+        out.push_back( i.uuid + "/" + num( i.cell ) + "/" + num( i.size ) + "/" + num( i.readable ) + "/" + num( i.notify ) + "/"
             + num( i.indicate ) + "/" + num( i.extra ) );
     }
 
@@ -144,7 +170,7 @@ struct walker
     {
         std::vector< std::string > cs;
         chars_of( static_cast< typename S::characteristics* >( nullptr ), cs );
-        services.push_back( num( S::uuid::as_16bit() ) + ":" + num( S::number_of_service_attributes ) + ":"
+        services.push_back( uuid_id< typename S::uuid >() + ":" + num( S::number_of_service_attributes ) + ":"
             + join( prio_list< typename S::notification_priority >::get(), "." ) + ":" + join( cs, "|" ) );
         run( static_cast< std::tuple< Ss... >* >( nullptr ) );
     }
@@ -160,12 +186,12 @@ struct server_if
     virtual std::string sub( unsigned c, std::size_t p, unsigned v ) = 0;
     virtual std::string mtu( unsigned c, unsigned m ) = 0;
     virtual std::string by_value( unsigned c, std::size_t cell, bool indication ) = 0;
-    virtual std::string by_uuid( unsigned c, unsigned uuid, bool indication ) = 0;
+    virtual std::string by_uuid( unsigned c, const std::string& uuid, bool indication ) = 0;
     virtual std::string out( unsigned c, std::size_t size ) = 0;
     virtual std::string conf( unsigned c ) = 0;
 };
 
-template < class Server >
+template < class Server, bool ViaAtt = false >
 struct wrapper : server_if
 {
     using con_t    = typename Server::template channel_data_t< bluetoe::details::link_state >;
@@ -226,11 +252,18 @@ struct wrapper : server_if
     void uuid_lookup( std::tuple<>*, std::vector< std::string >& ) {}
     template < class C >
     void uuid_lookup_one( std::vector< std::string >&, std::false_type ) {}
+    template < class F >
+    std::string uuid_lookup_found( std::false_type ) { return "x"; }     // the first characteristic with that UUID has no CCCD
+    template < class F >
+    std::string uuid_lookup_found( std::true_type )
+    {
+        return nd( bluetoe::details::find_notification_by_uuid< prio, services, typename F::characteristic_t >::data() );
+    }
     template < class C >
     void uuid_lookup_one( std::vector< std::string >& out, std::true_type )
     {
         using found = typename bluetoe::details::find_characteristic_data_by_uuid_in_service_list< services, typename C::configured_uuid >::type;
-        out.push_back( nd( bluetoe::details::find_notification_by_uuid< prio, services, typename found::characteristic_t >::data() ) );
+        out.push_back( uuid_lookup_found< found >( std::integral_constant< bool, found::characteristic_t::number_of_client_configs != 0 >() ) );
     }
     template < class C, class ... Cs >
     void uuid_lookup( std::tuple< C, Cs... >*, std::vector< std::string >& out )
@@ -291,11 +324,31 @@ struct wrapper : server_if
     {
         const std::vector< std::size_t > cccds = indices_of( 0x2902 );
         if ( p >= cccds.size() || v > 0xffff ) return "bad-op";
+        return sub_impl( c, cccds[ p ], v, std::integral_constant< bool, ViaAtt >() );
+    }
+
+    // directly through the access function of the real CCCD attribute, as server::handle_write_request does
+    std::string sub_impl( unsigned c, std::size_t index, unsigned v, std::false_type )
+    {
         std::uint8_t value[ 2 ] = { static_cast< std::uint8_t >( v & 0xff ), static_cast< std::uint8_t >( v >> 8 ) };
         auto write = bluetoe::details::attribute_access_arguments::write( &value[ 0 ], &value[ 2 ], 0, con[ c ].client_configurations(),
             con[ c ].security_attributes(), &srv );
-        const auto rc = Server::attribute_at( cccds[ p ] ).access( write, cccds[ p ] );
+        const auto rc = Server::attribute_at( index ).access( write, index );
         return rc == bluetoe::details::attribute_access_result::success ? "ok" : "rc=" + num( static_cast< unsigned >( rc ) );
+    }
+
+    // for a few servers: a real ATT Write Request to the CCCD handle through server::l2cap_input
+    std::string sub_impl( unsigned c, std::size_t index, unsigned v, std::true_type )
+    {
+        const std::uint16_t h = Server::handle_mapping::handle_by_index( index );
+        std::unique_ptr< std::uint8_t[] > ib( new std::uint8_t[ 5 ] ), ob( new std::uint8_t[ 23 ] );
+        const std::uint8_t pdu[ 5 ] = { 0x12, static_cast< std::uint8_t >( h & 0xff ), static_cast< std::uint8_t >( h >> 8 ),
+            static_cast< std::uint8_t >( v & 0xff ), static_cast< std::uint8_t >( v >> 8 ) };
+        std::copy( pdu, pdu + 5, ib.get() );
+        std::size_t out_size = 23;
+        cur = c;
+        srv.l2cap_input( ib.get(), 5, ob.get(), out_size, con[ c ] );
+        return out_size == 1 && ob[ 0 ] == 0x13 ? "ok" : "rsp=" + verif::to_hex( ob.get(), std::min< std::size_t >( out_size, 23 ) );
     }
 
     std::string mtu( unsigned c, unsigned m ) override
@@ -332,11 +385,11 @@ struct wrapper : server_if
     }
     template < class U > std::string call( bool, std::false_type, std::false_type ) { return "bad-op"; }
 
-    bool uuid_call( std::tuple<>*, unsigned, bool, std::string& ) { return false; }
+    bool uuid_call( std::tuple<>*, const std::string&, bool, std::string& ) { return false; }
     template < class C, class ... Cs >
-    bool uuid_call( std::tuple< C, Cs... >*, unsigned uuid, bool indication, std::string& result )
+    bool uuid_call( std::tuple< C, Cs... >*, const std::string& uuid, bool indication, std::string& result )
     {
-        if ( C::configured_uuid::as_16bit() == uuid )
+        if ( uuid_id< typename C::configured_uuid >() == uuid )
         {
             using U     = typename C::configured_uuid;
             using found = typename bluetoe::details::find_characteristic_data_by_uuid_in_service_list< services, U >::type;
@@ -345,15 +398,15 @@ struct wrapper : server_if
         }
         return uuid_call( static_cast< std::tuple< Cs... >* >( nullptr ), uuid, indication, result );
     }
-    bool uuid_call_s( std::tuple<>*, unsigned, bool, std::string& ) { return false; }
+    bool uuid_call_s( std::tuple<>*, const std::string&, bool, std::string& ) { return false; }
     template < class S, class ... Ss >
-    bool uuid_call_s( std::tuple< S, Ss... >*, unsigned uuid, bool indication, std::string& result )
+    bool uuid_call_s( std::tuple< S, Ss... >*, const std::string& uuid, bool indication, std::string& result )
     {
         return uuid_call( static_cast< typename S::characteristics* >( nullptr ), uuid, indication, result )
             || uuid_call_s( static_cast< std::tuple< Ss... >* >( nullptr ), uuid, indication, result );
     }
 
-    std::string by_uuid( unsigned c, unsigned uuid, bool indication ) override
+    std::string by_uuid( unsigned c, const std::string& uuid, bool indication ) override
     {
         cur = c;
         std::string result = "bad-op";
@@ -384,7 +437,7 @@ struct wrapper : server_if
     }
 };
 
-template < class S > std::unique_ptr< server_if > mk() { return std::unique_ptr< server_if >( new wrapper< S > ); }
+template < class S, bool ViaAtt = false > std::unique_ptr< server_if > mk() { return std::unique_ptr< server_if >( new wrapper< S, ViaAtt > ); }
 
 std::unique_ptr< server_if > make( const std::string& n )
 {
@@ -392,6 +445,9 @@ std::unique_ptr< server_if > make( const std::string& n )
 #define SRV( X ) if ( n == #X ) return mk< X >();
     SRV( P1 ) SRV( P2 ) SRV( P3 ) SRV( P4 ) SRV( P5 ) SRV( P6 ) SRV( P7 ) SRV( P8 )
     SRV( E1 ) SRV( E2 ) SRV( H1 ) SRV( R1 ) SRV( M1 ) SRV( D1 ) SRV( U1 )
+    SRV( X2 ) SRV( X3 )
+    if ( n == "X1" ) return mk< X1, true >();     // CCCD writes by ATT Write Request through l2cap_input
+    if ( n == "C3" ) return mk< C3, true >();
     return std::unique_ptr< server_if >();
 }
 
@@ -435,8 +491,8 @@ int main()
         }
         if ( w[ 0 ] == "nv" && kind && verif::parse_u64( w[ 1 ], a ) && verif::parse_u64( w[ 2 ], b ) && a < 2 && b < g_cells.size() )
             return s->by_value( a, b, w[ 3 ] == "i" );
-        if ( w[ 0 ] == "nu" && kind && verif::parse_u64( w[ 1 ], a ) && verif::parse_u64( w[ 2 ], b ) && a < 2 )
-            return s->by_uuid( a, b, w[ 3 ] == "i" );
+        if ( w[ 0 ] == "nu" && kind && verif::parse_u64( w[ 1 ], a ) && a < 2 && w[ 2 ].find_first_not_of( "0123456789" ) == std::string::npos )
+            return s->by_uuid( a, w[ 2 ], w[ 3 ] == "i" );
         if ( w[ 0 ] == "out" && w.size() == 3 && verif::parse_u64( w[ 1 ], a ) && verif::parse_u64( w[ 2 ], b ) && a < 2 && b <= 4096 )
             return s->out( a, b );
         if ( w[ 0 ] == "conf" && w.size() == 2 && verif::parse_u64( w[ 1 ], a ) && a < 2 )
